@@ -91,9 +91,23 @@ def parseObs (j : Json) : Option (Obs Float × List (List String)) := do
     | none => some []
   pure ({ out := rows, parts := parts, hints := hints }, cols :: pcols)
 
+/-- for `merge_and_drop_duplicates` the offsets the MODEL's loop computes from the REAL previous table are
+always offered as one more certificate (`Props/C08.lean` `check_merge_dropdup_accepts_model`: with them the
+checker accepts the documented behaviour whatever the inputs); the harness's own candidates come first -/
+def withModelHint (op : Op Float) (l : Motl Float) (o : Obs Float) : Obs Float :=
+  match op with
+  | .mergeDropDup b a s => { o with hints := o.hints ++ [mergeOffsets Gen.C08.mergeDropDupShiftCmp 0 (mergeInputs fill b a s l)] }
+  | _ => o
+
+/-- the observed chain with the model's certificate added at every `merge_and_drop_duplicates` (tables unchanged) -/
+def hinted : List (Op Float × Obs Float) → Motl Float → List (Op Float × Obs Float)
+  | [], _ => []
+  | (op, o) :: rest, l => (op, withModelHint op l o) :: hinted rest o.out
+
 def verdicts : List (Op Float × Obs Float × List (List String)) → Motl Float → List Json
   | [], _ => []
-  | (op, o, cols) :: rest, l =>
+  | (op, o0, cols) :: rest, l =>
+    let o := withModelHint op l o0
     let schema := cols.all checkSchema
     let failed := (stepClauses eqvBits fill Nat.toFloat op l o).filter (fun c => !c.2) |>.map (·.1)
     Json.mkObj [("schema", Json.bool schema), ("ok", Json.bool (checkStep eqvBits fill Nat.toFloat op l o)),
@@ -107,7 +121,7 @@ def handle (j : Json) : Json :=
     | some base, some ops, some obs =>
       let steps := ops.zip obs
       Json.mkObj [("verdicts", Json.arr (verdicts steps base).toArray),
-                  ("run_ok", Json.bool (checkRun eqvBits fill Nat.toFloat (steps.map (fun s => (s.1, s.2.1))) base))]
+                  ("run_ok", Json.bool (checkRun eqvBits fill Nat.toFloat (hinted (steps.map (fun s => (s.1, s.2.1))) base) base))]
     | _, _, _ => err "bad-args"
   | some "history" =>
     match getVal? j "base" >>= parseRows, getArr? j "ops" >>= (fun a => a.toList.mapM parseOp) with
